@@ -14,6 +14,7 @@ RULE = (
     "of quark flavours that are neither among the nf light ones nor the massive quark a component is about must be exactly zero in every "
     "order key (total/light/charm/bottom/top, NC and CC, PTO 0..2); (d) multi-nf: a ZM-VFNS run over points in several nf regions must "
     "agree key by key (rtol 1e-10, SV keys included) with stand-alone runs of each point. "
+    "(e) tagged: in ZM-VFNS/EM the gluon row of F2/FL_charm, _bottom, _top (tagged quark active) must be e_q^2/sum_{q'<=nf} e_q'^2 times the gluon row of the total at every central order, in each nf region above the tagged quark's own. "
     "Distinct = (scheme, NfFF, boundary class, reference nf, observation channel); non-trivial = an nf was actually compared."
 )
 ASSUMPTIONS = ["thresholds are generated in increasing order (eko's Atlas assumes sorted walls)"]
@@ -25,7 +26,7 @@ def budget(tier):
 
 def floor(tier):
     return dict(min_conclusive=60 if tier == "quick" else 1500, min_nontrivial=25,
-                classes=["at", "below", "above", "random", "beta0", "meta", "inactive", "multi-nf"], probes=["combiner_init"], min_compared=100)  # fmt: skip
+                classes=["at", "below", "above", "random", "beta0", "meta", "inactive", "multi-nf", "tagged"], probes=["combiner_init"], min_compared=100)  # fmt: skip
 
 
 def exact_mass(rng, lo, hi):
@@ -76,7 +77,17 @@ def cases(tier, rng):
             mode = "multi-nf"  # one run spanning several nf regions vs stand-alone runs (runner-wide state keyed by nf)
             scheme = "ZM-VFNS"
             th["FNS"] = scheme
+        elif i % 10 == 7:
+            mode = "tagged"  # flavour-tagged massless observables: their gluon row is the tagged quark's share of the total's gluon row
+            scheme = "ZM-VFNS"
+            th["FNS"] = scheme
         c = dict(id=f"c06-{i}", mode=mode, theory=th, points=pts, process=cards.pick(rng, ["EM", "NC", "CC"]))
+        if mode == "tagged":
+            c["pto"] = int(cards.pick(rng, [1, 2]))
+            c["kind"] = cards.pick(rng, ["F2", "FL"])
+            c["process"] = "EM"
+            reg = [float(np.sqrt(walls[0] * walls[1])), float(np.sqrt(walls[1] * walls[2])), float(walls[2] * 1.7)]
+            c["points"] = [dict(Q2=q, cls="random") for q in reg]
         if mode == "inactive":
             c["pto"] = int(cards.pick(rng, [0, 1, 2]))
             c["kind"] = cards.pick(rng, ["F2", "FL", "F3"])
@@ -191,9 +202,51 @@ def run_multinf(case):
                 sample=dict(obs=name, Q2s=[p["Q2"] for p in pts], nfs=[nfref.nf_light(th, p["Q2"]) for p in pts]))  # fmt: skip
 
 
+def run_tagged(case):
+    """Electromagnetic, all quarks massless: the gluon row of F_<q> (q = charm, bottom, top, active at Q2) is e_q^2 / sum_{q' <= nf} e_q'^2
+    times the gluon row of F_total at every central order - both are the gluon coefficient function for nf flavours times a charge
+    weight - so a coefficient function built for another number of flavours than the one active at Q2 shows in the public output."""
+    th = cards.theory(PTO=case["pto"], RenScaleVar=False, FactScaleVar=False, **case["theory"])
+    xg = cards.grid(6, 5, x_min=1e-3)
+    pts = [dict(x=xg[3] * 1.3, Q2=p["Q2"]) for p in case["points"]]
+    HQ = {"charm": 4, "bottom": 5, "top": 6}
+    names = [f"{case['kind']}_{h}" for h in ("total", *HQ)]
+    out = run.run(th, cards.observables({n: pts for n in names}, xgrid=xg, deg=3, prDIS="EM", ProjectileDIS="electron"))
+    e2 = {q: (4.0 / 9.0 if q % 2 == 0 else 1.0 / 9.0) for q in range(1, 7)}
+    viol, nontrivial = [], set()
+    compared = 0
+    sample = None
+    gi = run.pid_index(21)
+    for ip, p in enumerate(case["points"]):
+        nf = nfref.nf_light(th, p["Q2"])
+        tot = out[names[0]][ip]
+        for h, q in HQ.items():
+            if q > nf:
+                continue
+            res = out[f"{case['kind']}_{h}"][ip]
+            share = e2[q] / sum(e2[k] for k in range(1, nf + 1))
+            for o in range(1, case["pto"] + 1):
+                key = (o, 0, 0, 0)
+                gt, gh = np.asarray(tot.orders[key][0])[gi], np.asarray(res.orders[key][0])[gi]
+                et, eh = np.asarray(tot.orders[key][1])[gi], np.asarray(res.orders[key][1])[gi]
+                scale = run.absmax(gt) * share
+                dev = run.absmax(gh - share * gt)
+                tol = 1e-9 * scale + 5.0 * (run.absmax(eh) + share * run.absmax(et))
+                compared += gt.size
+                if scale > 0:
+                    nontrivial.add(f"tagged|{case['kind']}|{h}|nf{nf}|o{o}")
+                if dev > tol:
+                    viol.append(dict(sig=f"tagged-gluon-share|{case['kind']}|{h}|o{o}", what=f"{case['kind']}_{h} EM ZM-VFNS Q2={p['Q2']:.5g} (nf={nf}): gluon row of order {run.key(key)} is not e_q^2/sum e^2 = {share:.6g} times the gluon row of {names[0]} (max dev {dev:.3g} at scale {scale:.3g}; ratio observed {float(np.max(np.abs(gh)) / max(np.max(np.abs(gt)), 1e-300)):.6g}): the coefficient function was not built for the {nf} flavours active at this Q2"))
+                elif sample is None and scale > 0:
+                    sample = dict(obs=f"{case['kind']}_{h}", nf=nf, order=o, share=share, max_dev=dev, scale=scale)
+    return dict(violations=viol, compared=compared, nontrivial=sorted(nontrivial), classes=["tagged"], probes=dict(combiner_init=1), sample=sample)
+
+
 def run_case(case):
     if case["mode"] == "inactive":
         return run_inactive(case)
+    if case["mode"] == "tagged":
+        return run_tagged(case)
     if case["mode"] == "multi-nf":
         return run_multinf(case)
     th0 = case["theory"]
